@@ -1,5 +1,6 @@
-(* C19 -- validate() seen on contents only (no heap), and the refinement lemma connecting the
-   by-reference model with it when no other attribute shares the cipherImplementations list. *)
+(* C19 -- validate() seen on contents only (no heap), and the refinement lemma: the by-reference
+   model computes it on every well-formed object (since /repo 851aa29 validate() writes only to cells it
+   allocated itself; before, the lemma needed "no other attribute shares the cipherImplementations list"). *)
 From Coq Require Import ZArith List Bool String Lia.
 From TV Require Import Base.Prelude Model.C19_Settings Spec.C19_Domain Proofs.C19_Frame.
 Import ListNotations.
@@ -42,12 +43,6 @@ Definition cvalidate (T : tables) (I : install) (v : list (list val)) (c : scala
   if isnil (nth F_cipherNames v5 []) then Err ValueError else Ok v5
   end end end end.
 
-(* ---- the aliasing hypothesis ------------------------------------------------------------------- *)
-Definition impl_unaliased (s : settings) : Prop :=
-  forall f, (f < NF)%nat -> f <> F_cipherImplementations -> L s f <> L s F_cipherImplementations.
-
-Definition Inv (h : heap) (o : settings) : Prop := wf h o = true /\ impl_unaliased o.
-
 (* ---- lists / G versus heap operations -------------------------------------------------------- *)
 Lemma wf_length h o : wf h o = true -> List.length (locs o) = NF.
 Proof. unfold wf. intros H. apply andb_true_iff in H. destruct H as [H _]. apply Nat.eqb_eq in H. exact H. Qed.
@@ -62,48 +57,14 @@ Qed.
 Lemma lists_length h o : List.length (lists h o) = List.length (locs o).
 Proof. unfold lists. apply map_length. Qed.
 
-Lemma lists_app h x o : wf h o = true -> lists (h ++ x) o = lists h o.
-Proof.
-  intros W. unfold lists. apply map_ext_in. intros l Hl. apply hget_app_old.
-  unfold wf in W. apply andb_true_iff in W. destruct W as [_ W]. rewrite forallb_forall in W.
-  apply W in Hl. apply Nat.ltb_lt in Hl. exact Hl.
-Qed.
-
 Lemma forallb_lupd {A} (P : A -> bool) l k x : forallb P l = true -> P x = true -> forallb P (lupd l k x) = true.
 Proof.
   revert k. induction l as [|y t IH]; intros [|k] H Hx; cbn [lupd forallb] in *; auto;
     apply andb_true_iff in H; destruct H as [H1 H2]; apply andb_true_iff; split; auto.
 Qed.
 
-Lemma wf_mono h x o : wf h o = true -> wf (h ++ x) o = true.
-Proof.
-  unfold wf. intros W. apply andb_true_iff in W. destruct W as [W1 W2]. apply andb_true_iff. split; [exact W1|].
-  rewrite forallb_forall in *. intros l Hl. apply W2 in Hl. apply Nat.ltb_lt in Hl. apply Nat.ltb_lt.
-  rewrite app_length. lia.
-Qed.
-
-Lemma inv_alloc h o f x :
-  Inv h o -> (f < NF)%nat -> f <> F_cipherImplementations ->
-  Inv (h ++ [x]) (set_loc o f (List.length h)) /\
-  lists (h ++ [x]) (set_loc o f (List.length h)) = lupd (lists h o) f x /\
-  L (set_loc o f (List.length h)) F_cipherImplementations = L o F_cipherImplementations.
-Proof.
-  intros [W U] Hf Hn.
-  assert (HL : L (set_loc o f (List.length h)) F_cipherImplementations = L o F_cipherImplementations)
-    by (apply L_set_loc_neq; auto).
-  split; [split|split; [|exact HL]].
-  - unfold wf, set_loc. cbn [locs]. rewrite lupd_length.
-    pose proof (wf_mono h [x] o W) as W'. unfold wf in W'. apply andb_true_iff in W'. destruct W' as [W1 W2].
-    apply andb_true_iff. split; [exact W1|]. apply forallb_lupd; [exact W2|].
-    apply Nat.ltb_lt. rewrite app_length. cbn. lia.
-  - intros g Hg Hgn. rewrite HL.
-    destruct (Nat.eq_dec g f) as [->|Ng].
-    + unfold L at 1, set_loc. cbn [locs]. rewrite nth_lupd_eq by (rewrite (wf_length h o W); exact Hf).
-      pose proof (wf_L h o F_cipherImplementations W ltac:(unfold NF, F_cipherImplementations; lia)). lia.
-    + rewrite L_set_loc_neq by exact Ng. apply U; assumption.
-  - unfold lists, set_loc. cbn [locs]. rewrite map_lupd. rewrite hget_app_new.
-    f_equal. apply (lists_app h [x] o W).
-Qed.
+Lemma lupd_lupd {A} (l : list A) k x y : lupd (lupd l k x) k y = lupd l k y.
+Proof. revert k. induction l as [|a t IH]; intros [|k]; cbn [lupd]; auto. f_equal. apply IH. Qed.
 
 Lemma map_hget_hset h q x (l : list loc) k :
   nth k l O = q -> (k < List.length l)%nat -> (q < List.length h)%nat ->
@@ -119,53 +80,26 @@ Proof.
     + specialize (U O ltac:(lia) ltac:(lia)). cbn in U. exact U.
 Qed.
 
-Lemma remove_all_matches_lists h o needle :
-  Inv h o ->
-  lists (remove_all_matches h (L o F_cipherImplementations) needle) o
-  = lupd (lists h o) F_cipherImplementations
-         (filter (fun v => negb (py_eq v (VStr needle))) (nth F_cipherImplementations (lists h o) [])).
+(* The pattern of every write in validate(): rebind attribute f to a NEW cell (location = old heap size)
+   whose final content is y; all other cells of the new heap h' are those of h. *)
+Lemma rebind_lists h h' o f y :
+  wf h o = true -> (f < NF)%nat ->
+  List.length h' = Datatypes.S (List.length h) -> frame_all h h' -> hget h' (List.length h) = y ->
+  wf h' (set_loc o f (List.length h)) = true /\
+  lists h' (set_loc o f (List.length h)) = lupd (lists h o) f y.
 Proof.
-  intros [W U]. unfold remove_all_matches, lists.
-  pose proof (wf_length h o W) as Len.
-  rewrite (map_hget_hset h _ _ (locs o) F_cipherImplementations); auto.
-  - f_equal. f_equal. fold (lists h o). rewrite <- G_lists by (rewrite Len; unfold NF, F_cipherImplementations; lia).
-    reflexivity.
-  - rewrite Len. unfold NF, F_cipherImplementations; lia.
-  - apply wf_L; [exact W|unfold NF, F_cipherImplementations; lia].
-  - intros j Hj Hn. apply U; [rewrite <- Len; exact Hj|exact Hn].
+  intros W Hf Len [_ Fr] Hy. pose proof (wf_length h o W) as LenO.
+  pose proof W as W0. unfold wf in W. apply andb_true_iff in W. destruct W as [W1 W2].
+  split.
+  - unfold wf, set_loc. cbn [locs]. rewrite lupd_length. apply andb_true_iff. split; [exact W1|].
+    apply forallb_lupd; [|apply Nat.ltb_lt; lia].
+    rewrite forallb_forall in *. intros l Hl. apply W2 in Hl. apply Nat.ltb_lt in Hl. apply Nat.ltb_lt. lia.
+  - unfold lists, set_loc. cbn [locs]. rewrite map_lupd, Hy. f_equal.
+    apply map_ext_in. intros l Hl. apply Fr. rewrite forallb_forall in W2. apply W2 in Hl. apply Nat.ltb_lt in Hl. exact Hl.
 Qed.
 
-Lemma inv_remove h o needle : Inv h o -> Inv (remove_all_matches h (L o F_cipherImplementations) needle) o.
-Proof.
-  intros [W U]. split; [|exact U]. unfold wf, remove_all_matches in *. rewrite hset_length. exact W.
-Qed.
-
-Lemma lupd_lupd {A} (l : list A) k x y : lupd (lupd l k x) k y = lupd l k y.
-Proof. revert k. induction l as [|a t IH]; intros [|k]; cbn [lupd]; auto. f_equal. apply IH. Qed.
-
-Lemma step_impl_lists I h o :
-  Inv h o -> lists (step_impl I h o) o = cstep_impl I (lists h o) /\ Inv (step_impl I h o) o.
-Proof.
-  intros HI. unfold step_impl, cstep_impl, impl_available.
-  assert (Len : (F_cipherImplementations < List.length (lists h o))%nat)
-    by (rewrite lists_length, (wf_length h o (proj1 HI)); unfold NF, F_cipherImplementations; lia).
-  destruct (i_m2crypto I); destruct (i_pycrypto I); cbn [negb].
-  - split; [|exact HI].
-    assert (E : filter (fun x : val => negb (py_eq x (VStr "openssl") && false) && negb (py_eq x (VStr "pycrypto") && false))
-                  (nth F_cipherImplementations (lists h o) []) = nth F_cipherImplementations (lists h o) []).
-    { etransitivity; [|apply filter_true]. apply filter_ext. intros a. cbn [negb]. rewrite !andb_false_r. reflexivity. }
-    rewrite E. symmetry. apply lupd_same.
-  - split; [|apply inv_remove; exact HI]. rewrite remove_all_matches_lists by exact HI. f_equal.
-    apply filter_ext. intros a. rewrite andb_false_r, !andb_true_r. reflexivity.
-  - split; [|apply inv_remove; exact HI]. rewrite remove_all_matches_lists by exact HI. f_equal.
-    apply filter_ext. intros a. rewrite andb_false_r, !andb_true_r. cbn [negb andb].
-    destruct (negb (py_eq a (VStr "openssl"))); reflexivity.
-  - split; [|apply inv_remove, inv_remove; exact HI].
-    rewrite remove_all_matches_lists by (apply inv_remove; exact HI).
-    rewrite remove_all_matches_lists by exact HI.
-    rewrite lupd_lupd. f_equal. rewrite nth_lupd_eq by exact Len. rewrite filter_filter.
-    apply filter_ext. intros a. rewrite !andb_true_r. reflexivity.
-Qed.
+Lemma L_rebind_other o f p g : g <> f -> L (set_loc o f p) g = L o g.
+Proof. apply L_set_loc_neq. Qed.
 
 (* ---- refinement --------------------------------------------------------------------------------- *)
 Lemma checks_A_pure T h o : wf h o = true -> checks_A T h o = cchecks_A T (lists h o) (sc o).
@@ -174,131 +108,86 @@ Proof.
   rewrite (wf_length h o W). unfold NF, F_certificateTypes. lia.
 Qed.
 
+Lemma nth_in_range {A} (l : list A) f d : True -> nth f l d = nth f l d.
+Proof. reflexivity. Qed.
+
 Lemma validate_refines T I h s :
-  Inv h s ->
+  wf h s = true ->
   match validate T I h s with
-  | (h', Ok s') => cvalidate T I (lists h s) (sc s) = Ok (lists h' s') /\ sc s' = sc s /\ Inv h' s'
+  | (h', Ok s') => cvalidate T I (lists h s) (sc s) = Ok (lists h' s') /\ sc s' = sc s /\ wf h' s' = true
   | (h', Err e) => cvalidate T I (lists h s) (sc s) = Err e
   end.
 Proof.
-  intros HI. pose proof HI as [W U]. pose proof (wf_length h s W) as Len.
+  intros W. pose proof (wf_length h s W) as Len.
   unfold validate, cvalidate. rewrite checks_A_pure by exact W.
   destruct (cchecks_A T (lists h s) (sc s)); [|reflexivity].
   (* versions *)
-  unfold step_versions, cstep_versions.
-  rewrite G_lists by (rewrite Len; unfold NF, F_versions; lia).
-  assert (S1 : exists h1 o1 v1,
-             (if ver_lt (maxVersion (sc s)) (3, 4)
-              then match filter_lt34 (nth F_versions (lists h s) []) with
-                   | Ok l => let '(h', p) := halloc h l in Ok (h', set_loc s F_versions p)
-                   | Err e => Err e end
-              else Ok (h, s)) = Ok (h1, o1) /\
-             (if ver_lt (maxVersion (sc s)) (3, 4)
-              then match filter_lt34 (nth F_versions (lists h s) []) with
-                   | Ok l => Ok (lupd (lists h s) F_versions l) | Err e => Err e end
-              else Ok (lists h s)) = Ok v1 /\
-             lists h1 o1 = v1 /\ sc o1 = sc s /\ Inv h1 o1 /\
-             L o1 F_cipherImplementations = L s F_cipherImplementations
-             \/ exists e, (if ver_lt (maxVersion (sc s)) (3, 4)
-              then match filter_lt34 (nth F_versions (lists h s) []) with
-                   | Ok l => let '(h', p) := halloc h l in Ok (h', set_loc s F_versions p)
-                   | Err e => Err e end
-              else Ok (h, s)) = Err e /\
-             (if ver_lt (maxVersion (sc s)) (3, 4)
-              then match filter_lt34 (nth F_versions (lists h s) []) with
-                   | Ok l => Ok (lupd (lists h s) F_versions l) | Err e => Err e end
-              else Ok (lists h s)) = Err e).
-  { destruct (ver_lt (maxVersion (sc s)) (3, 4)).
-    - destruct (filter_lt34 (nth F_versions (lists h s) [])) as [l|e].
-      + unfold halloc.
-        destruct (inv_alloc h s F_versions l HI ltac:(unfold NF, F_versions; lia) ltac:(discriminate)) as [A [B C]].
-        exists (h ++ [l])%list, (set_loc s F_versions (List.length h)), (lupd (lists h s) F_versions l).
-        left. repeat split; auto. apply A. apply A.
-      + exists h, s, (lists h s). right. exists e. auto.
-    - exists h, s, (lists h s). left. repeat split; auto. }
-  destruct S1 as [h1 [o1 [v1 [[E1 [E1' [V1 [C1 [I1 P1]]]]]|[e [E1 E1']]]]]]; rewrite E1, E1'; [|reflexivity].
+  assert (S1 : (exists h1 o1 v1, step_versions h s = Ok (h1, o1) /\ cstep_versions (lists h s) (sc s) = Ok v1 /\
+                  lists h1 o1 = v1 /\ sc o1 = sc s /\ wf h1 o1 = true /\ frame_all h h1)
+               \/ exists e, step_versions h s = Err e /\ cstep_versions (lists h s) (sc s) = Err e).
+  { unfold step_versions, cstep_versions.
+    rewrite G_lists by (rewrite Len; unfold NF, F_versions; lia).
+    destruct (ver_lt (maxVersion (sc s)) (3, 4)).
+    - destruct (filter_lt34 (nth F_versions (lists h s) [])) as [l|e]; [|right; exists e; auto].
+      left. unfold halloc.
+      destruct (rebind_lists h (h ++ [l]) s F_versions l W ltac:(unfold NF, F_versions; lia)
+                  ltac:(rewrite app_length; cbn; lia) (frame_alloc h l) (hget_app_new h l)) as [A B].
+      exists (h ++ [l])%list, (set_loc s F_versions (List.length h)), (lupd (lists h s) F_versions l).
+      repeat split; auto; apply (frame_alloc h l).
+    - left. exists h, s, (lists h s). repeat split; auto. }
+  destruct S1 as [[h1 [o1 [v1 [E1 [E1' [V1 [C1 [W1 F1]]]]]]]]|[e [E1 E1']]]; rewrite E1, E1'; [|reflexivity].
   rewrite V1, C1.
   destruct (sanityCheckExtensions T v1 (sc s)); [|reflexivity].
-  (* macNames *)
-  unfold step_macnames, cstep_mac. rewrite C1.
-  rewrite (G_lists h1 s) by (rewrite Len; unfold NF, F_macNames; lia).
-  assert (S2 : exists h2 o2,
-             (if ver_lt (maxVersion (sc s)) (3, 3)
-              then let '(h', p) := halloc h1 (filter keep_old_mac (nth F_macNames (lists h1 s) [])) in
-                   (h', set_loc o1 F_macNames p)
-              else (h1, o1)) = (h2, o2) /\
-             lists h2 o2 = (if ver_lt (maxVersion (sc s)) (3, 3)
-                            then lupd v1 F_macNames (filter keep_old_mac (nth F_macNames (lists h1 s) []))
-                            else v1) /\
-             sc o2 = sc s /\ Inv h2 o2).
-  { destruct (ver_lt (maxVersion (sc s)) (3, 3)).
-    - unfold halloc.
-      destruct (inv_alloc h1 o1 F_macNames (filter keep_old_mac (nth F_macNames (lists h1 s) [])) I1
-                          ltac:(unfold NF, F_macNames; lia) ltac:(discriminate)) as [A [B C]].
-      eexists _, _. split; [reflexivity|]. rewrite B, V1. repeat split; auto. apply A. apply A.
-    - exists h1, o1. repeat split; auto. apply I1. apply I1. }
-  destruct S2 as [h2 [o2 [E2 [V2 [C2 I2]]]]]. rewrite E2.
-  (* self.macNames read in h1 = read in h: h1 extends h *)
-  assert (M : nth F_macNames (lists h1 s) [] = nth F_macNames (lists h s) []).
-  { destruct (ver_lt (maxVersion (sc s)) (3, 4)).
-    - destruct (filter_lt34 (nth F_versions (lists h s) [])) as [l|e']; [|discriminate E1].
-      unfold halloc in E1. injection E1 as <- _. rewrite lists_app by exact W. reflexivity.
-    - injection E1 as <- _. reflexivity. }
-  rewrite M in V2. unfold checks_C, cchecks_C. rewrite V2, C2.
-  set (v2 := if ver_lt (maxVersion (sc s)) (3, 3)
-             then lupd v1 F_macNames (filter keep_old_mac (nth F_macNames (lists h s) [])) else v1) in *.
+  (* macNames: self.macNames is read in h1, which extends h *)
+  assert (M : G h1 s F_macNames = nth F_macNames (lists h s) []).
+  { rewrite <- G_lists by (rewrite Len; unfold NF, F_macNames; lia).
+    unfold G. apply F1. apply wf_L; [exact W|unfold NF, F_macNames; lia]. }
+  assert (S2 : exists h2 o2, step_macnames s h1 o1 = (h2, o2) /\ lists h2 o2 = cstep_mac (lists h s) v1 (sc s) /\
+                             sc o2 = sc s /\ wf h2 o2 = true).
+  { unfold step_macnames, cstep_mac. rewrite C1, M.
+    destruct (ver_lt (maxVersion (sc s)) (3, 3)).
+    - unfold halloc. set (x := filter keep_old_mac (nth F_macNames (lists h s) [])).
+      destruct (rebind_lists h1 (h1 ++ [x]) o1 F_macNames x W1 ltac:(unfold NF, F_macNames; lia)
+                  ltac:(rewrite app_length; cbn; lia) (frame_alloc h1 x) (hget_app_new h1 x)) as [A B].
+      eexists _, _. split; [reflexivity|]. rewrite B, V1. auto.
+    - exists h1, o1. auto. }
+  destruct S2 as [h2 [o2 [E2 [V2 [C2 W2]]]]]. rewrite E2.
+  unfold checks_C, cchecks_C. rewrite V2, C2.
+  set (v2 := cstep_mac (lists h s) v1 (sc s)) in *.
   destruct (_ <- sanityCheckPsks T v2;; sanityCheckTicketSettings T v2 (sc s)); [|reflexivity].
-  (* implementations *)
-  destruct (step_impl_lists I h2 o2 I2) as [V4 I4]. rewrite V2 in V4.
-  pose proof (wf_length _ _ (proj1 I4)) as Len4.
-  assert (G4 : G (step_impl I h2 o2) o2 F_cipherImplementations = nth F_cipherImplementations (cstep_impl I v2) []).
-  { rewrite G_lists; [rewrite V4; reflexivity|rewrite Len4; unfold NF, F_cipherImplementations; lia]. }
-  assert (G4c : G (step_impl I h2 o2) o2 F_cipherNames = nth F_cipherNames (cstep_impl I v2) []).
-  { rewrite G_lists; [rewrite V4; reflexivity|rewrite Len4; unfold NF, F_cipherNames; lia]. }
-  rewrite G4.
+  (* implementations: a filtered copy in a new cell *)
+  pose proof (wf_length h2 o2 W2) as Len2.
+  destruct (step_impl_spec I h2 o2) as [h4 [E4 [L4 [F4 Y4]]]]. rewrite E4.
+  rewrite G_lists in Y4 by (rewrite Len2; unfold NF, F_cipherImplementations; lia). rewrite V2 in Y4.
+  destruct (rebind_lists h2 h4 o2 F_cipherImplementations _ W2 ltac:(unfold NF, F_cipherImplementations; lia) L4 F4 Y4)
+    as [W4 V4].
+  set (o4 := set_loc o2 F_cipherImplementations (List.length h2)) in *.
+  rewrite V2 in V4. fold (cstep_impl I v2) in V4.
+  pose proof (wf_length h4 o4 W4) as Len4.
+  rewrite G_lists by (rewrite Len4; unfold NF, F_cipherImplementations; lia). rewrite V4.
   destruct (isnil (nth F_cipherImplementations (cstep_impl I v2) [])); [reflexivity|].
   (* ciphers *)
-  unfold step_ciphers, cstep_ciphers.
-  destruct (negb (i_tdes I)).
-  - unfold halloc. rewrite G4c.
-    set (cn := nth F_cipherNames (cstep_impl I v2) []).
-    destruct (inv_alloc (step_impl I h2 o2) o2 F_cipherNames cn I4 ltac:(unfold NF, F_cipherNames; lia) ltac:(discriminate))
-      as [A [B C]].
-    set (h5a := (step_impl I h2 o2 ++ [cn])%list) in *.
-    set (o5 := set_loc o2 F_cipherNames (List.length (step_impl I h2 o2))) in *.
-    assert (V5 : lists (remove_all_matches h5a (List.length (step_impl I h2 o2)) "3des") o5
-                 = lupd (cstep_impl I v2) F_cipherNames (filter not_3des cn)).
-    { unfold remove_all_matches, lists.
-      assert (Len5 : List.length (locs o5) = NF) by (apply (wf_length h5a), A).
-      rewrite (map_hget_hset h5a _ _ (locs o5) F_cipherNames).
-      - fold (lists h5a o5). rewrite B, V4. rewrite lupd_lupd. f_equal.
-        unfold h5a. rewrite hget_app_new. reflexivity.
-      - unfold o5, set_loc. cbn [locs]. apply nth_lupd_eq. rewrite Len4. unfold NF, F_cipherNames. lia.
-      - rewrite Len5. unfold NF, F_cipherNames. lia.
-      - unfold h5a. rewrite app_length. cbn. lia.
-      - intros j Hj Hn. unfold o5, set_loc. cbn [locs]. rewrite nth_lupd_neq by exact Hn.
-        rewrite Len5 in Hj.
-        pose proof (wf_L _ _ j (proj1 I4) Hj) as Q. unfold L in Q. lia. }
-    rewrite G_lists.
-    2:{ unfold remove_all_matches. rewrite (wf_length h5a o5 (proj1 A)). unfold NF, F_cipherNames. lia. }
-    rewrite V5.
-    destruct (isnil (nth F_cipherNames (lupd (cstep_impl I v2) F_cipherNames (filter not_3des cn)) [])); [reflexivity|].
-    split; [rewrite V5; reflexivity|]. split; [exact C2|].
-    destruct A as [WA UA]. split; [|exact UA].
-    unfold wf, remove_all_matches in *. rewrite hset_length. exact WA.
-  - rewrite G4c.
+  destruct (step_ciphers_spec I h4 o4) as [[E5 Td]|[h5 [E5 [Td [L5 [F5 Y5]]]]]]; rewrite E5;
+    unfold cstep_ciphers; rewrite Td; cbn [negb].
+  - rewrite G_lists by (rewrite Len4; unfold NF, F_cipherNames; lia). rewrite V4.
     destruct (isnil (nth F_cipherNames (cstep_impl I v2) [])); [reflexivity|].
-    split; [rewrite V4; reflexivity|]. split; [exact C2|exact I4].
+    rewrite V4. auto.
+  - rewrite G_lists in Y5 by (rewrite Len4; unfold NF, F_cipherNames; lia). rewrite V4 in Y5.
+    destruct (rebind_lists h4 h5 o4 F_cipherNames _ W4 ltac:(unfold NF, F_cipherNames; lia) L5 F5 Y5) as [W5 V5].
+    rewrite V4 in V5.
+    rewrite G_lists by (rewrite (wf_length _ _ W5); unfold NF, F_cipherNames; lia). rewrite V5.
+    change not_3des_v with not_3des.
+    destruct (isnil (nth F_cipherNames (lupd (cstep_impl I v2) F_cipherNames (filter not_3des (nth F_cipherNames (cstep_impl I v2) []))) []));
+      [reflexivity|].
+    rewrite V5. split; [reflexivity|]. split; [exact C2|exact W5].
 Qed.
 
-(* decidable form of the aliasing hypothesis *)
-Definition unaliased_b (s : settings) : bool :=
-  forallb (fun f => Nat.eqb f F_cipherImplementations || negb (Nat.eqb (L s f) (L s F_cipherImplementations))) (seq 0 NF).
-
-Lemma unaliased_b_sound s : unaliased_b s = true -> impl_unaliased s.
+(* the receiver, observed after the call, is what it was before *)
+Lemma validate_view_unchanged T I h s h' r :
+  wf h s = true -> validate T I h s = (h', r) -> view h' s = view h s.
 Proof.
-  unfold unaliased_b, impl_unaliased. intros H f Hf Hn. rewrite forallb_forall in H.
-  specialize (H f ltac:(apply in_seq; lia)). apply orb_true_iff in H. destruct H as [H|H].
-  - apply Nat.eqb_eq in H. contradiction.
-  - apply negb_true_iff in H. apply Nat.eqb_neq in H. exact H.
+  intros W H. destruct (validate_frame T I h s h' r H) as [_ Fr].
+  unfold view, lists. f_equal. apply map_ext_in. intros l Hl. apply Fr.
+  unfold wf in W. apply andb_true_iff in W. destruct W as [_ W2]. rewrite forallb_forall in W2.
+  apply W2 in Hl. apply Nat.ltb_lt in Hl. exact Hl.
 Qed.
